@@ -498,6 +498,9 @@ func parseDiffLines(diff string) (lines []diffLine) {
 				oldLine, _ = strconv.Atoi(matches[1])
 				newLine, _ = strconv.Atoi(matches[3])
 			}
+		case strings.HasPrefix(line, `\`):
+			// "\ No newline at end of file" is not a line of either version of the file.
+			continue
 		case strings.HasPrefix(line, "-"):
 			lines = append(lines, diffLine{old: oldLine, new: 0, wasModified: true, wasRemoved: true})
 			oldLine++
